@@ -139,8 +139,9 @@ def _quotient(ctx, model):
         conds = [(pol, v) for _, pol, v in ps.conds if isinstance(v, tuple)]
         if rv == NUM:
             saw.add("by-one")
-            ok = any(pol and v == ("unop", "Not", ("binop", "Sub", DEN,
-                                                   ("const", 1)))
+            ok = any((pol and v == ("unop", "Not", ("binop", "Sub", DEN,
+                                                    ("const", 1))))
+                     or (not pol and v == ("binop", "Sub", DEN, ("const", 1)))
                      for pol, v in conds)
             ctx.ob("P/quotient/by-one", ok, loc,
                    "x / 1 -> x" if ok else
